@@ -66,7 +66,7 @@ class Worker(threading.Thread):
     def _run(self):
         b = lrv.BUILDS[self.build]
         self.scratch = lrv.make_scratch("%s-w%d" % (self.prop, self.idx))
-        files = [f for f in self.files if f["anchor"].split("/")[0] in pkg_dirs_for(b["package"])]
+        files = lrv.files_for_build(self.files, b, pkg_dirs_for(b["package"]))
         self.copies = lrv.apply_overlay(self.scratch, files, b["swap"], b.get("edits", ()))
         ht = max([h.timeout or TIER_TIMEOUT[self.tier] for h in self.hs])
         cmd = lrv.kani_cmd(self.build, [h.fq() for h in self.hs],
@@ -237,7 +237,7 @@ def cmd_replay(prop, path):
     scratch = lrv.make_scratch("replay-%s" % prop)
     try:
         b = lrv.BUILDS[build]
-        fs = [f for f in files if f["anchor"].split("/")[0] in pkg_dirs_for(b["package"])]
+        fs = lrv.files_for_build(files, b, pkg_dirs_for(b["package"]))
         copies = lrv.apply_overlay(scratch, fs, b["swap"], b.get("edits", ()))
         cp = copies[os.path.join(VERIF, hfile)]
         body = text.split("\n", 3)[3]
